@@ -40,10 +40,15 @@ class FaultExit(SystemExit):
 
 
 def f(x):
+    if x is None:
+        return ("w", None)
     return 2 * x + 1
 
 
-def call_input(k, n):
+def call_input(k, n, ikind="list"):
+    if ikind == "vals":
+        # items a pool must treat like any other: 0 (falsy) first, None (also the pools' own stop token) at odd positions
+        return [0 if j == 0 else (None if j % 2 else 100 * (k + 1) + j) for j in range(n)]
     return [100 * (k + 1) + j for j in range(n)]
 
 
@@ -148,7 +153,7 @@ def make_driver(cfg):
             if cfg.precreate:
                 for k, call in enumerate(cfg.calls):
                     mode, ikind, n, cs = call[:4]
-                    data = call_input(k, n)
+                    data = call_input(k, n, ikind)
                     inp = vmp.LazyInput(data) if ikind == "lazy" else (iter(data) if ikind == "iter" else data)
                     pre[k] = pool.imap(inp, cs) if mode == "imap" else pool.imap_unordered(inp, cs)
             if cfg.zipped:
@@ -156,7 +161,7 @@ def make_driver(cfg):
                 gens, recs = [], []
                 for k, call in enumerate(cfg.calls[:2]):
                     mode, ikind, n, cs = call[:4]
-                    data = call_input(k, n)
+                    data = call_input(k, n, ikind)
                     rec = {"mode": mode, "data": data, "cs": cs, "yielded": [], "finished": False, "leftover": None}
                     out["calls"].append(rec)
                     recs.append(rec)
@@ -177,7 +182,7 @@ def make_driver(cfg):
                 exact = len(call) > 4 and call[4] == "exact"
                 if cfg.until_all_ready == "each" and k > 0:
                     wait_ready()
-                data = call_input(k, n)
+                data = call_input(k, n, ikind)
                 rec = {"mode": mode, "data": data, "cs": cs, "yielded": [], "finished": False, "leftover": None}
                 out["calls"].append(rec)
                 inp = vmp.LazyInput(data) if ikind == "lazy" else (iter(data) if ikind == "iter" else data)
@@ -218,7 +223,7 @@ def payload_items(s):
     for q in s.queues:
         for it in q._items:
             if isinstance(it, tuple) and len(it) == 2 and isinstance(it[1], list) and it[1] \
-                    and all(isinstance(v, int) and v % 2 == 1 for v in it[1]):
+                    and all((isinstance(v, int) and v % 2 == 1) or v == ("w", None) for v in it[1]):
                 left.append((q.kind, it[0], tuple(it[1])))
     return left
 
@@ -371,7 +376,7 @@ def judge_lifecycle(cfg, r, out):
         if cfg.quota is not None:
             chunks = set()
             for e in evs:
-                if e[3] == "item":
+                if e[3] == "item" and isinstance(e[4], int) and e[4] >= 100:
                     k = e[4] // 100 - 1
                     j = e[4] % 100
                     cs = cfg.calls[k][3] if 0 <= k < len(cfg.calls) else 1
